@@ -14,7 +14,7 @@ CORE = schema.CORE
 SPEC = '''
 def uses_wf():
     return (forall(lambda v=Value: nonnull(v._uses) and allocated(v._uses)) and
-            forall(lambda v=Value, u=Usage: implies(u in box(v._uses), nonnull(u.node) and allocated(u.node))) and
+            forall(lambda v=Value, u=Usage: implies(u in box(v._uses), nonnull(u.node) and allocated(u.node) and isinstance(u.node, Node))) and
             forall(lambda v=Value, w=Value: implies(v is not w, v._uses is not w._uses)))
 
 def I1():
@@ -63,7 +63,7 @@ def build(eng, prop):
         e.functions[f"{CORE}.Node.replace_input_with"] = rc
     eng.add_target(Target("Node.resize_inputs", mod=CORE, qual="Node.resize_inputs", self_cls="Node", params=dict(new_size=INT), setup=setup,
         requires=["uses_wf()", "I1()"],
-        loops={0: LoopSpec(invariant=["uses_wf()", "I1()", "implies(k > 0, new_size >= 0)", "len(self._inputs) == current_size", "current_size == old(len(self._inputs))",
+        loops={0: LoopSpec(invariant=["uses_wf()", "I1()", "implies(k > 0, new_size >= 0)", "implies(k == 0, %s)" % unchanged, "len(self._inputs) == current_size", "current_size == old(len(self._inputs))",
                                       "forall(lambda j=int: implies(0 <= j and j < new_size, self._inputs[j] is old(self._inputs[j])))",
                                       "forall(lambda j=int: implies(new_size <= j and j < new_size + k, self._inputs[j] is None))",
                                       "forall(lambda n=Node: implies(n is not self, n._inputs == old(n._inputs)))"],
@@ -83,6 +83,8 @@ def build(eng, prop):
                     "uses_wf()", "I1()",
                     # uses not yet visited are still uses of self; visited ones now read the replacement
                     "forall(lambda j=int: implies(k <= j and j < len(it), it[j] in box(self._uses)))",
+                    # ... and are in range, so the index check of replace_input_with cannot fire inside the loop
+                    "forall(lambda j=int: implies(k <= j and j < len(it), 0 <= it[j].idx and it[j].idx < len(it[j].node._inputs)))",
                     "forall(lambda n=Node, i=int: implies(0 <= i and i < len(n._inputs) and old(n._inputs[i]) is self and not (Usage(n, i) in box(self._uses)), "
                     "n._inputs[i] is replacement))",
                     "forall(lambda u=Usage: implies(u in box(self._uses), k <= keypos(it, u) and keypos(it, u) < len(it) and it[keypos(it, u)] == u))",
